@@ -1,33 +1,49 @@
 // C16 — threshold signatures verify under the jointly generated key.
 //
-// Every case is one deterministic multi-party run ("world", see c16_world.hh) of the REAL classes
-// GennaroJareckiKrawczykRabinNTS (threshold Schnorr) resp. CanettiGennaroJareckiKrawczykRabinDSS (threshold DSA) over the
-// in-memory networks of mc/sched with the real reliable broadcast underneath, in small groups
-// (g0: |p|=128,|q|=64; g1: |p|=256,|q|=160), seeded by VERIF_SEED.
+// Every case ("cell") is one deterministic multi-party run ("world", see c16_world.hh) of the REAL classes
+// GennaroJareckiKrawczykRabinNTS (threshold Schnorr, new-TSch) resp. CanettiGennaroJareckiKrawczykRabinDSS (threshold DSA)
+// over the in-memory networks of mc/sched with the real reliable broadcast underneath, in small groups
+// (g0: |p|=128,|q|=64; g1: |p|=256,|q|=160; drawn from VERIF_SEED).  F = set of faulty signers, |F| <= t, 3t < n; all
+// members of F take the same behaviour; "signer n-1" = F = {n-1}; "single" = |F| = 1.
 //
-// Families (--family):
-//   nts     fault enumeration for NTS: (n,t) with 3t<n; every set F of <= t faulty signers; all members of F take the same
-//           behaviour out of: built-in switch with ALL 2^3 values of its coins in Sign (x the switch off / on with coin 0 /
-//           on with coin 1 during Generate), silent from the start of Sign resp. from its k-th own broadcast on (every k),
-//           wrong value in its k-th own broadcast / k-th private message of Sign (every k; value+1 and value:=q),
-//           outcast (silent during Generate, honest code in Sign); wrong value in the k-th own broadcast / private message of
-//           Generate (every k, one faulty party)
-//   dss     the same for DSS (Generate, Sign, Refresh, Sign): built-in switch with coin patterns of bounded weight
-//           (none / all / exactly one of the 24 coins that Sign evaluates) x sub-protocol coins all 0 / all 1 / seeded,
-//           silent, outcast, wrong values / crash at every position (thorough: n=4 every signer, n=5 one signer; quick: a
-//           stride for one signer), reduced signer set {1..n-1}
-//   msg     messages 0, 1, q-1, q, q+1, seeded 256 bit: NTS signs all six in one world; DSS signs each once before and once
-//           after Refresh; without faults and with one built-in-faulty signer; both groups
+// Families (--family) and bounds per tier (nothing is sampled; every list below is enumerated completely):
+//   nts   (n,t): quick (3,0),(4,1),(5,1); thorough every n = 3..7 with every t.  For every non-empty F:
+//           built-in switch: all 2^3 values of the three coins NTS::Sign evaluates x {switch off in Generate, on with coin 0,
+//             on with coin 1} (quick: the two "on" variants only with coins 000 and 111)
+//           outcast: silent during Generate (so disqualified), library's honest code in Sign
+//           silent from its k-th own broadcast of Sign on, k = 0 (whole Sign) .. number of its broadcasts (quick: single F)
+//           wrong value in its k-th own broadcast / k-th private message of Sign, every k (value+1; thorough, single F:
+//             also value:=q)
+//           wrong value in its k-th own broadcast / private message of Generate, every k (signer n-1; thorough: every single F)
+//   dss   worlds Generate, Sign(m0), Refresh, Sign(m1) [, Sign(m2) by the reduced signer set {1..n-1} with RBC(n-1,t')].
+//         (n,t): quick (4,1); thorough (4,1),(5,1),(7,2) ((7,2): Generate, Sign only).  Without faults: 1, 2 and 3 signatures.
+//         For every non-empty F: silent (whole Sign), outcast, built-in switch with coin patterns
+//           quick and (7,2): {no coin, all coins} (sub-protocol coins all 0 resp. all 1)
+//           (5,1): + {no coin/sub 1, all/sub 0, switch also on in Generate/Refresh with coins 0 resp. 1}
+//           (4,1) thorough: + each single one of the 24 coins that DSS::Sign evaluates x sub-protocol coins all 0 / all 1,
+//             + two patterns with seeded sub-protocol coins
+//         wrong values (one signature per world): thorough (4,1): every broadcast and every private message of Sign for every
+//           single F (signer 3 also with value:=q), crash at every 8th broadcast; thorough (5,1): the same for signer 4;
+//           quick: the two last broadcasts (the share of s) for every single F, and for signer 3 every 4th broadcast plus
+//           broadcast 13, every 6th private message (first share of each sub-protocol), crash at broadcasts 8, 40, 72
+//         wrong values in Generate for signer n-1 (thorough: every position; quick: every 4th broadcast plus 9, every 6th
+//           private message), followed by Sign, Refresh, Sign
+//         thorough n = 5: reduced signer set with a faulty member (all coins / silent)
+//   msg   messages 0, 1, q-1, q, q+1, seeded: NTS signs all six in one world; DSS signs each once before and once after
+//         Refresh; (3,0),(4,1) [thorough: (5,1),(7,2)], without faults and with signer n-1 built-in-faulty; groups g0, g1
 //   verify  verifier boundary catalogue around one honest signature per scheme and group:
-//           (r',s') resp. (c',s') in {0,1,q-1,q,q+1,-1,v,v+q,v+1}^2 x m' in {m,m+1,m+q}; plus tmcg_mpz_shash cross-checks
-// Tiers: quick n in {3,4,5} (DSS faults: n=4), thorough n = 3..7 (DSS faults: n=4,5,7) — see props/C16.json "rule".
+//         (r',s') resp. (c',s') in {0,1,q-1,q,q+1,-1,v,v+q,v+1}^2 x m' in {m,m+1,m+q}; plus tmcg_mpz_shash cross-checks
 //
 // Oracle (per world, honest = not in F): all honest parties hold the same y; all honest parties whose Sign returned true hold
 // the same signature; that signature is sent to the independent Python reference (ref/oracle_tsig.py:
 // textbook Schnorr with tmcg_mpz_shash rebuilt from hashlib / textbook DSA with range checks) which must accept it; the
 // library's own Verify must accept it as well.  Honest runs that return false produce no output and are only counted
-// (honest_sign_failed_with_faulty_signer:<class>), except when nobody is faulty: then every phase must succeed (all-honest-failed).  Catalogue: the library verdict is sent to Python and must equal the textbook
-// verdict (NTS: only for 0 <= s' < q, Schnorr's range condition is not part of the implemented scheme).
+// (honest_sign_failed_with_faulty_signer:<class>), except when nobody is faulty: then every phase must succeed (all-honest-failed).
+// Catalogue: the library verdict is sent to Python and must equal the textbook verdict (NTS: only for 0 <= s' < q, Schnorr's
+// range condition is not part of the implemented scheme).
+// Finding keys: tsig/<scheme>/<deviation class>/<what>, pyref/tsig.<schnorr|dsa>[.<deviation class>]; when the harness
+// observes the root cause of the known finding "DKG erases a party from QUAL" at an honest party the keys are
+// tsig/dss/dkg-qual-erased/<generate|sign> and pyref/tsig.dsa.dkg-qual-erased instead.
 #include "c16_world.hh"
 using namespace drv;
 using namespace c16;
@@ -601,6 +617,7 @@ static void family_verify(const Grp *G, bool thorough)
 int main(int argc, char **argv)
 {
 	Args A = parse(argc, argv);
+	if (A.only.find('#') != std::string::npos) A.only = A.only.substr(0, A.only.find('#'));   // "<cell>#sign0", "<cell>#m,c,s": replay the cell
 	Report R(A);
 	RP = &R;
 	if (!init_libTMCG()) return 2;
